@@ -717,13 +717,17 @@ def sha_file(path):
 #   * std::cmp::min(a, b) / a.min(b) / max likewise print as min(A,B) with sorted arguments
 #   * a > b prints as b < a, a >= b as b <= a; operands of + * == != are sorted
 #   * parentheses and `as` casts between integer types keep their place (casts are printed), parens are dropped
-_PURE_METHODS = {"get", "unwrap", "map", "unwrap_or", "map_or", "min", "max", "len", "clone", "as_ref", "first", "last", "is_empty", "is_some", "is_none",
+_PURE_METHODS = {"get", "unwrap", "map", "unwrap_or", "map_or", "is_some_and", "is_none_or", "and_then", "filter", "unwrap_or_default", "cmp", "partial_cmp", "is_lt", "is_gt", "is_le", "is_ge", "is_eq", "is_ne", "min", "max", "len", "clone", "as_ref", "first", "last", "is_empty", "is_some", "is_none",
                  "as_bytes", "saturating_add", "saturating_sub", "saturating_mul", "checked_sub", "checked_add", "checked_mul", "wrapping_add", "abs", "floor", "ceil", "to_string", "iter", "copied", "clamp", "pow", "trim_end", "trim", "as_str", "borrow", "borrow_mut", "to_owned"}
 
 
 def pure_expr(e, fn=None, depth=0):
     for x in walk_no_nested_fn(e):
-        if x.k in ("try", "match", "return", "macro", "await", "assign", "break", "continue", "closure", "if", "block", "while", "loop", "for"):
+        if x.k in ("try", "return", "macro", "await", "assign", "break", "continue", "while", "loop", "for", "let", "item_stmt"):
+            return False
+        if x.k == "block" and not (len(x["stmts"]) == 1 and x["stmts"][0].k == "expr_stmt" and not x["stmts"][0].get("semi")):
+            return False    # only `{ expr }`
+        if x.k == "if" and x.get("else") is None:
             return False
         if x.k == "call":
             f = up(x["func"])
